@@ -253,6 +253,11 @@ func (a *appGenerator) makeSecuritySchemes() GenSecuritySchemes {
 func (a *appGenerator) makeCodegenApp() (GenApp, error) {
 	log.Println("building a plan for generation")
 
+	// the documents to embed are rendered before planning: planning models and operations adds
+	// definitions for anonymous types to the flattened document and sanitises validations in place
+	jsonb, _ := json.MarshalIndent(a.SpecDoc.OrigSpec(), "", "  ")
+	flatjsonb, _ := json.MarshalIndent(a.SpecDoc.Spec(), "", "  ")
+
 	sw := a.SpecDoc.Spec()
 	receiver := a.Receiver
 
@@ -506,9 +511,6 @@ func (a *appGenerator) makeCodegenApp() (GenApp, error) {
 	if sw.BasePath != "" {
 		basePath = sw.BasePath
 	}
-
-	jsonb, _ := json.MarshalIndent(a.SpecDoc.OrigSpec(), "", "  ")
-	flatjsonb, _ := json.MarshalIndent(a.SpecDoc.Spec(), "", "  ")
 
 	return GenApp{
 		GenCommon: GenCommon{
